@@ -5,7 +5,7 @@ H = 'vt.harness.c14'
 Rp = 'replicat.repository:Repository.'
 EXPLANATION = (
     'S kernels (CrossHair+z3): LOC/N0 (location builders/parsers inverse; names = MAC(digest), MAC(MAC(digest)), symbolic hex strings and digests), '
-    'X1 lifts snapshot()._chunk_producer and traces it with SYMBOLIC chunk plaintexts under idealised crypto: the queued object is exactly '
+    'L1 (shared) the stream layout incl. the extent of a file while it is still being read; X1 lifts snapshot()._chunk_producer and traces it with SYMBOLIC chunk plaintexts under idealised crypto: the queued object is exactly '
     'Enc(KDF(shared, H(p)), p) at loc(MAC(H(p)), MAC(MAC(H(p)))) resp. p at loc(H(p), H(p)), one table index per distinct digest, contiguous '
     'counters and stream ranges; A1/P1 (shared with C01) give the tiling of a file by its recorded ranges and the order restore replays them in; '
     'J1 byte strings tagged as {"!b": base64} round-trip; M1 the pre-1.3 timestamp fallback. E, both directions against vt/ref_format.py - an '
@@ -21,7 +21,7 @@ ASSUMPTIONS = ['the reference implementation encodes my reading of the README sc
 def obligations(tier):
     c1 = {o.id: o for o in c01.obligations(tier)}
     c8 = {o.id: o for o in c08.obligations(tier)}
-    return [c8['LOC.c'], c8['LOC.s'], c8['N0.fmt'], c1['A1'], c1['P1'], c1['M1'],
+    return [c8['LOC.c'], c8['LOC.s'], c8['N0.fmt'], c1['A1'], c1['L1'], c1['P1'], c1['M1'],
             Ob('X1', 'S', 'queued chunk object = Enc(KDF(shared,H(p)),p) at loc(MAC(H(p)),MAC(MAC(H(p)))); table index per digest; counters; ranges',
                '2 chunks: symbolic 1-byte plaintext and an equal or longer second one, encrypted and not', [Rp + 'snapshot._chunk_producer', Rp + '_chunk_digest_to_location_parts'],
                module=H, func='x1_chunk_object', timeout=900),
